@@ -231,7 +231,9 @@ func (m *Model) Step(conn int, req *refcodec.Msg) *Expect {
 			break
 		}
 		if f.Opaque {
-			open("operation on an xattr-read fid")
+			// an attribute fid has no file type: it cannot be opened
+			e.reject(EINVAL)
+			e.NoBackend = true
 			break
 		}
 		if f.Fenced {
